@@ -410,7 +410,16 @@ func runC17(t *kernel.Tape, opt core.Opts) *core.Outcome {
 	inGraph := t.PlanBool(50)
 	stream := t.PlanBool(50)
 	globalCB := t.PlanBool(40) // a callback handler installed globally only
-	o.Sample = fmt.Sprintf("tools=%s calls=%v unknownHandler=%v failing=%v empty=%v graph=%v stream=%v globalCB=%v", specsStr(specs), calls, handler, failing, empties, inGraph, stream, globalCB)
+	// an explicit, empty tool list given with the call: every call then names an unknown tool
+	emptyList := t.PlanBool(6)
+	if emptyList {
+		failing = map[int]int{}
+		for _, sp := range specs {
+			sp.Fail = map[string]int{}
+		}
+		unknown = true
+	}
+	o.Sample = fmt.Sprintf("tools=%s calls=%v unknownHandler=%v failing=%v empty=%v graph=%v stream=%v globalCB=%v emptyToolList=%v", specsStr(specs), calls, handler, failing, empties, inGraph, stream, globalCB, emptyList)
 	o.PlanHash = core.HashString(o.Sample)
 
 	s := kernel.New(t, 100)
@@ -462,15 +471,21 @@ func runC17(t *kernel.Tape, opt core.Opts) *core.Outcome {
 			done = true
 		}()
 		var sr *schema.StreamReader[[]*schema.Message]
+		var gopts []compose.Option
+		var nopts []compose.ToolsNodeOption
+		if emptyList {
+			nopts = append(nopts, compose.WithToolList([]tool.BaseTool{}...))
+			gopts = append(gopts, compose.WithToolsNodeOption(nopts...))
+		}
 		switch {
 		case inGraph && !stream:
-			out, callErr = runnable.Invoke(ctx, msg)
+			out, callErr = runnable.Invoke(ctx, msg, gopts...)
 		case inGraph && stream:
-			sr, callErr = runnable.Stream(ctx, msg)
+			sr, callErr = runnable.Stream(ctx, msg, gopts...)
 		case !stream:
-			out, callErr = tn.Invoke(ctx, msg)
+			out, callErr = tn.Invoke(ctx, msg, nopts...)
 		default:
-			sr, callErr = tn.Stream(ctx, msg)
+			sr, callErr = tn.Stream(ctx, msg, nopts...)
 		}
 		if callErr == nil && sr != nil {
 			for {
@@ -537,7 +552,7 @@ func runC17(t *kernel.Tape, opt core.Opts) *core.Outcome {
 		var want []string
 		for _, c := range calls {
 			content := expectedContent(specs, c.Name, c.Args, "")
-			if c.Name == "nosuchtool" {
+			if c.Name == "nosuchtool" || emptyList {
 				content = "unk(" + c.Name + "," + c.Args + ")"
 			}
 			want = append(want, msgCanon(schema.ToolMessage(content, c.ID)))
@@ -579,7 +594,7 @@ func runC17(t *kernel.Tape, opt core.Opts) *core.Outcome {
 	if !(unknown && !handler) {
 		var want, got []string
 		for _, c := range calls {
-			if c.Name != "nosuchtool" {
+			if c.Name != "nosuchtool" && !emptyList {
 				want = append(want, c.Name+"|"+c.Args+"|"+c.ID)
 			}
 		}
@@ -642,7 +657,7 @@ var agentStub = []string{"tools (harness tasks that yield, stream in chunks, fai
 func init() {
 	core.Register(&core.Profile{
 		RaceQuick: 200, RaceThorough: 3000, ID: "C17", Engine: "agentsim", Quick: 4000, Thorough: 100000, ThoroughSeeds: 3, Run: runC17,
-		Rule: "each run draws 2-4 tools (invokable-only, streamable-only, both; yields, chunkings), an assistant message with 1-5 calls (repeated tools, unknown names), an unknown-tool handler or none, 0-2 failing calls (error, panic, error item mid-stream), direct call or inside a graph, Invoke or Stream, and one schedule (tool completion order); oracle: N answers in call order with the right ids and outputs, concat(Stream)=Invoke, failures and unknown names reported, every call executed exactly once with its own call id; tools built with utils.InferTool (pointer request type, used after yielding); calls answered with the empty string; in 2 of 5 runs a callback handler installed globally only, which must see one start and one end per tool call when the node runs inside a graph",
+		Rule: "each run draws 2-4 tools (invokable-only, streamable-only, both; yields, chunkings), an assistant message with 1-5 calls (repeated tools, unknown names), an unknown-tool handler or none, 0-2 failing calls (error, panic, error item mid-stream), direct call or inside a graph, Invoke or Stream, and one schedule (tool completion order); oracle: N answers in call order with the right ids and outputs, concat(Stream)=Invoke, failures and unknown names reported, every call executed exactly once with its own call id; tools built with utils.InferTool (pointer request type, used after yielding); calls answered with the empty string; in 2 of 5 runs a callback handler installed globally only, which must see one start and one end per tool call when the node runs inside a graph; 1 run in 16 passes an explicit, empty tool list with the call (every call is then unknown); every other tool's mid-stream error item wraps io.EOF",
 		Real: agentReal, Stub: agentStub,
 		Faults: []string{"tool completion order", "tool error", "tool panic", "error item mid-stream", "unknown tool name"},
 	})
